@@ -287,6 +287,17 @@ def _child(d, argv, sim, out_fd):
     tm.uuid = names
     tagging.uuid4 = names.uuid4
     bf.uuid = names
+    tl = (sim.get('tiling') or {}).get('time_limit')
+    if tl:
+        # the clock the per-segment time limit reads: advances 1 ms per reading and STALLS once (machine suspended, NFS hang) for longer than the limit
+        class _TaskClock(_dt.datetime):
+            calls = 0
+
+            @classmethod
+            def now(cls, tz=None):
+                cls.calls += 1
+                return _dt.datetime(2020, 1, 1) + _dt.timedelta(milliseconds=cls.calls, seconds=(tl.get('stall_s', 10 ** 6) if cls.calls > tl['stall_at_call'] else 0))
+        tagging.datetime = _TaskClock
     if sim.get('real_pool'):
         # fidelity cross-check of the stub: the real fork-based pool.  Forked workers would all inherit the same
         # name stream (-> identical temp file names), so the real uuid4 is left in place for the workers.
@@ -375,6 +386,8 @@ def _run_tiling(tm, argv, sim):
     t = sim['tiling']
     kw.update(one_contig_per_process=False, bp_per_segment=t['bp_per_segment'], bp_per_job=t['bp_per_job'],
               fragment_size=t['fragment_size'], n_threads=sim.get('width') or 2)
+    if t.get('time_limit'):     # -max_time_per_segment: a segment that runs longer is dropped and reported in the output header
+        kw['max_time_per_segment'] = t['time_limit']['limit']
     if t.get('job_bed'):        # -jobbed: the job list is also written out for inspection
         kw['job_bed_file'] = 'jobs.bed.gz' if t['job_bed'] == 'gz' else 'jobs.bed'
     real(**kw)
